@@ -555,14 +555,14 @@ def _entry_neutral(chars):
 
 
 _ZSH_FRAME = "\x01\x02\x03"
-_BLE_FRAME = "\t\x1c"
+_BLE_FRAME = "\t\x1c\n\r"
 ENTRY_CLASSES = [
     Class("zsh_framing_control_chars", ("C18",), ("entry",),
           lambda i: _entry_shell(i) == "zsh" and any(_has_ctl(t, _ZSH_FRAME) for t in _entry_texts(i)), _entry_neutral(_ZSH_FRAME),
           "zsh: the output is framed with \\001 \\002 \\003 but neither the sanitizer nor the message formatter removes these characters: a typed word (echoed in an error message or a `--flag=` prefix) or a description containing one of them yields output the zsh snippet splits into the wrong fields"),
     Class("bashble_unsanitised_entry", ("C18",), ("entry",),
           lambda i: _entry_shell(i) == "bash-ble" and any(_has_ctl(t, _BLE_FRAME) for t in _entry_texts(i)), _entry_neutral(_BLE_FRAME),
-          "bash-ble: no field is sanitised (the listed finding bashble_unsanitised of C04): a tab or \\x1c in a description or an echoed word yields records the ble.sh snippet cannot split into its four fields"),
+          "bash-ble: no field is sanitised (the listed finding bashble_unsanitised of C04): a tab, \\x1c or line break in a description or an echoed word yields records the ble.sh snippet cannot split into its four fields"),
 ]
 for _c in ENTRY_CLASSES:
     _c.codes = ("malformed_output:",)
